@@ -36,16 +36,66 @@ func c10New(self uint64) *c10State {
 	return &c10State{tab: routing.NewTable(id), mgr: m, oth: &c09Tables{m.DomainTable(), m.ForwardTable(), m.AgentTable()}}
 }
 
+var c10Hist []string
+var c10Self uint64 = 1
+
 func c10Run(line string) string {
 	f := fields(line)
 	if f[0] == "reset" {
-		c10S = c10New(c08U(f[1]))
+		c10Self = c08U(f[1])
+		c10S = c10New(c10Self)
+		c10Hist = nil
 		return "ok"
 	}
 	if c10S == nil {
-		c10S = c10New(1)
+		c10S = c10New(c10Self)
 	}
-	s := c10S
+	if f[0] == "crace" || f[0] == "race" {
+		// crace: inner ops are CIDR-table ops without prefix
+		raceLine := line
+		if f[0] == "crace" {
+			parts := strings.Split(line, " | ")
+			for i := 1; i < len(parts); i++ {
+				parts[i] = "c" + strings.TrimSpace(parts[i])
+			}
+			parts[0] = "race" + strings.TrimPrefix(strings.TrimSpace(parts[0]), "crace")
+			raceLine = strings.Join(parts, " | ")
+		}
+		hist := c10Hist
+		ops := c08RaceOps(raceLine)
+		out := c08Race(raceLine, ops[0][0] == 'a', func() (func(string), func() string, func()) {
+			s := c10New(c10Self)
+			for _, h := range hist {
+				c10Do(s, fields(h))
+			}
+			dump := func() string {
+				if ops[0][0] == 'c' {
+					return c08Dump(s.tab)
+				}
+				return c09DumpOf(s.oth, ops[0])
+			}
+			return func(op string) { c10Do(s, fields(op)) }, dump, func() { c10S = s }
+		})
+		c10Hist = append(c10Hist, ops...)
+		return out
+	}
+	c10Hist = append(c10Hist, line)
+	return c10Apply(c10S, f)
+}
+
+// c10Do executes an op without printing where a silent form exists.
+func c10Do(s *c10State, f []string) {
+	switch {
+	case strings.HasPrefix(f[0], "m"):
+		c10Apply(s, f)
+	case strings.HasPrefix(f[0], "c"):
+		c08Do(s.tab, append([]string{f[0][1:]}, f[1:]...))
+	default:
+		c09Do(s.oth, f)
+	}
+}
+
+func c10Apply(s *c10State, f []string) string {
 	m := s.mgr
 	switch f[0] {
 	case "mlocal":
@@ -164,6 +214,23 @@ func c10Gen(w *bufio.Writer, seed int64, tier string) {
 			c08GenCase(bw, r, nops, 5, 3+r.intn(5))
 		} else {
 			c09GenCase(bw, r, nops, 4)
+		}
+		bw.Flush()
+		c10Rewrite(w, r, buf.Bytes(), cidr)
+	}
+	// concurrency cases (see c08GenRace / c09GenRace); `race` on the CIDR table becomes `crace`
+	races := 8
+	if tier == "thorough" || seed >= 1000 {
+		races = 60
+	}
+	for c := 0; c < races; c++ {
+		var buf bytes.Buffer
+		bw := bufio.NewWriter(&buf)
+		cidr := c%2 == 0
+		if cidr {
+			c08GenRace(bw, r)
+		} else {
+			c09GenRace(bw, r)
 		}
 		bw.Flush()
 		c10Rewrite(w, r, buf.Bytes(), cidr)
